@@ -13,7 +13,10 @@ What is read (with `ast`; nothing is executed):
 (b) the class `DifferentiationMapper`: bases, `__init__` (accepted settings), `rec_undiff`, every
     `map_*` handler reduced to a rule shape (`C10Shape`): which children are differentiated and how
     they are combined; for `map_quotient` / `map_power` the whole branch chain as terms over the
-    locals `f g df dg`; for `map_if` the gate; and the entry point `differentiate`.
+    locals `f g df dg`; for `map_if` the gate; for `map_common_subexpression_uncached` the test
+    `primitives.is_zero(<the child's derivative>)` and the int literal answered when it holds
+    (`cseZero`; `is_zero` / `is_nonzero` themselves are read from pymbolic/primitives.py and must
+    be `not bool(x)`); and the entry point `differentiate`.
 
 A shape this reader does not understand is an `ExtractError` (reported by the check as a broken
 obligation) — never a default, never a guess.  The Lean side
@@ -459,8 +462,9 @@ def read_bin_rule(fn, what):
     return shape, rule
 
 
-def read_rebuild(ret, expr, args, what):
-    """`type(expr)(part, …)` -> [(differentiated?, field)]"""
+def read_rebuild(ret, expr, args, what, bound=None):
+    """`type(expr)(part, …)` -> [(differentiated?, field)]; `bound` = (local, field): the local
+    holds `self.rec(expr.<field>, *args)`"""
     if not (isinstance(ret, ast.Call) and not ret.keywords
             and match_expr(f"type({expr})", ret.func) is not None):
         return None
@@ -470,8 +474,14 @@ def read_rebuild(ret, expr, args, what):
         if b is not None:
             parts.append((False, b["M_F"]))
             continue
+        if bound is not None and isinstance(a, ast.Name) and a.id == bound[0]:
+            parts.append((True, bound[1]))
+            continue
         b = match_expr(f"self.rec({expr}.M_F, *{args})", a)
         if b is not None:
+            if bound is not None:
+                raise ExtractError(f"{what}: {show(a)} differentiates a child again after the "
+                                   f"tested local {bound[0]} was bound")
             parts.append((True, b["M_F"]))
             continue
         raise ExtractError(f"{what}: cannot read the constructor argument {show(a)}")
@@ -531,8 +541,29 @@ def read_handler(fn, tbl):
             return f".sumFnTimesRec {lean_str(b['M_FN'])} {lean_str(b['M_PARS'])}"
         parts = read_rebuild(ret, E, A, what)
         if parts is not None:
+            if name == "map_common_subexpression_uncached":
+                if "cseZero" in tbl:
+                    raise ExtractError(f"{what}: a second CSE handler")
+                tbl["cseZero"] = "none"       # wraps whatever the child's derivative is
             return f".rebuild false {parts_text(parts)}"
         raise ExtractError(f"{what}: cannot read `return {show(ret)}`")
+    # `result = self.rec(expr.<fld>); if primitives.is_zero(result): return <int>;
+    #  return type(expr)(result, …)`
+    b = match_stmts(f"M_r = self.rec({E}.M_F, *{A})\n"
+                    f"if {tbl['prim']}.is_zero(M_r):\n    return T_z\n"
+                    "return T_ret\n", body)
+    if b is not None:
+        if b["M_r"] in (E, A, "self") or not is_int(b["T_z"]):
+            raise ExtractError(f"{what}: cannot read the zero test / its answer {show(b['T_z'])}")
+        parts = read_rebuild(b["T_ret"], E, A, what, bound=(b["M_r"], b["M_F"]))
+        if parts is None:
+            raise ExtractError(f"{what}: cannot read `return {show(b['T_ret'])}`")
+        if [f for d, f in parts if d] != [b["M_F"]]:
+            raise ExtractError(f"{what}: the tested derivative must be the one differentiated part")
+        if name != "map_common_subexpression_uncached" or "cseZero" in tbl:
+            raise ExtractError(f"{what}: a zero-tested rebuild other than the CSE handler")
+        tbl["cseZero"] = f"some {lean_int(b['T_z'].value)}"
+        return f".rebuildUnlessZero {parts_text(parts)}"
     # gate + rebuild
     if (len(body) == 2 and isinstance(body[0], ast.If) and not body[0].orelse
             and len(body[0].body) == 1 and isinstance(body[0].body[0], ast.Raise)
@@ -556,6 +587,29 @@ def read_handler(fn, tbl):
         tbl[key] = rule
         return shape
     raise ExtractError(f"{what}: cannot read this handler")
+
+
+def check_is_zero(prim_tree):
+    """`primitives.is_zero(x)` must be `not bool(x)` (the model's `Expr.isZero`): read
+    `is_zero` / `is_nonzero` from the source of pymbolic/primitives.py"""
+    fns = {st.name: st for st in prim_tree.body if isinstance(st, ast.FunctionDef)}
+    for need in ("is_zero", "is_nonzero"):
+        if need not in fns:
+            raise ExtractError(f"pymbolic.primitives.{need} not found")
+    for fn in (fns["is_zero"], fns["is_nonzero"]):
+        a = fn.args
+        if (len(a.args) != 1 or a.vararg or a.kwarg or a.kwonlyargs or a.posonlyargs or a.defaults
+                or fn.decorator_list):
+            raise ExtractError(f"pymbolic.primitives.{fn.name}: unexpected signature")
+    v = fns["is_zero"].args.args[0].arg
+    if match_stmts(f"return not is_nonzero({v})", body_wo_doc(fns["is_zero"])) is None:
+        raise ExtractError("pymbolic.primitives.is_zero is not `not is_nonzero(value)`")
+    v = fns["is_nonzero"].args.args[0].arg
+    if match_stmts(f"if {v} is None:\n    raise ValueError(T_msg)\n"
+                   f"try:\n    return bool({v})\nexcept ValueError:\n    return True\n",
+                   body_wo_doc(fns["is_nonzero"])) is None:
+        raise ExtractError("pymbolic.primitives.is_nonzero is not `bool(value)` (None refused, "
+                           "a ValueError from bool() counted as nonzero)")
 
 
 def dotted(node):
@@ -621,7 +675,8 @@ def read_entry(fn, default_fm_setting):
 def read_source(ctx):
     repo = (ctx or {}).get("repo") or os.environ.get("REPO", "/repo")
     out = {}
-    for key, rel in (("diff", "pymbolic/mapper/differentiator.py"), ("fun", "pymbolic/functions.py")):
+    for key, rel in (("diff", "pymbolic/mapper/differentiator.py"), ("fun", "pymbolic/functions.py"),
+                     ("prim", "pymbolic/primitives.py")):
         path = os.path.join(repo, rel)
         with open(path) as f:
             out[key] = f.read()
@@ -630,7 +685,8 @@ def read_source(ctx):
 
     import pymbolic.functions as live_fun
     import pymbolic.mapper.differentiator as live_diff
-    for key, mod in (("diff", live_diff), ("fun", live_fun)):
+    import pymbolic.primitives as live_prim
+    for key, mod in (("diff", live_diff), ("fun", live_fun), ("prim", live_prim)):
         if inspect.getsource(mod) != out[key]:
             raise ExtractError(f"the imported {mod.__name__} ({mod.__file__}) is not the source "
                                f"under {repo}; set PYTHONPATH to the tree given by REPO")
@@ -641,6 +697,7 @@ def extract_diff_table(ctx=None, write=True):
     repo, src = read_source(ctx)
     tree = ast.parse(src["diff"])
     fun_tree = ast.parse(src["fun"])
+    check_is_zero(ast.parse(src["prim"]))
     # module-level names the patterns rely on
     imports = {}
     for st in tree.body:
@@ -675,7 +732,7 @@ def extract_diff_table(ctx=None, write=True):
     cls = top["DifferentiationMapper"]
     if cls.keywords or cls.decorator_list:
         raise ExtractError("DifferentiationMapper: unexpected metaclass / decorators")
-    tbl = {"bases": [dotted(b_) for b_ in cls.bases]}
+    tbl = {"bases": [dotted(b_) for b_ in cls.bases], "prim": "primitives"}
     shapes = []
     for st in body_wo_doc(cls):
         if isinstance(st, ast.FunctionDef):
@@ -694,7 +751,8 @@ def extract_diff_table(ctx=None, write=True):
         else:
             raise ExtractError(f"DifferentiationMapper: unexpected class-body statement {show(st)}")
     shapes.append(("differentiate", read_entry(top["differentiate"], fm_default)))
-    for need in ("constVal", "varHit", "varMiss", "quot", "pow", "ifGate", "settings", "noneSetting"):
+    for need in ("constVal", "varHit", "varMiss", "quot", "pow", "ifGate", "cseZero", "settings",
+                 "noneSetting"):
         if need not in tbl:
             raise ExtractError(f"DifferentiationMapper: nothing found for {need}")
     if fm_default != tbl["noneSetting"]:
@@ -719,6 +777,7 @@ def extract_diff_table(ctx=None, write=True):
         f"  quot := {tbl['quot']},\n"
         f"  pow := {tbl['pow']},\n"
         f"  ifGate := {tbl['ifGate']},\n"
+        f"  cseZero := {tbl['cseZero']},\n"
         f"  settings := {lean_list([lean_str(s) for s in tbl['settings']])},\n"
         f"  noneSetting := {lean_str(tbl['noneSetting'])},\n"
         f"  bases := {lean_list([lean_str(s) for s in tbl['bases']])},\n"
